@@ -78,10 +78,12 @@ func VerifC09DynamicField() {
 // VerifC09KeyField: `key` never panics; an accepted key either has a scale or is refused
 // by the scale constructor with an error (never a panic, never a partial scale).
 func VerifC09KeyField() {
-	node, _ := verifScalarNode("s", vf.Param("C09.maxLen", 3))
+	node, s := verifScalarNode("s", vf.Param("C09.maxLen", 3))
 	var k Key
 	err := k.UnmarshalYAML(node)
 	if err == nil {
+		// a key crd has no notion of is refused, never read as some key-like fragment of it
+		verifAcceptedKeyIsWhatWasWritten(s, k)
 		sc, serr := NewScale(k)
 		vf.Assert("scale-or-error", (sc == nil) == (serr != nil))
 		vf.Reach("accepted")
